@@ -106,6 +106,13 @@ def regress_scenarios(full):
     add([D("c1", 0, "c_bytes"), CL("c1", 0), CL("c1", 0)], extra_kinds={"c_bytes": cat.command_bytes()})
     # C15: return_options.ttl without a suffix; the closure returning one of its own earlier output frames
     add([R("h1", 0, "h_ttl"), R("h2", 1, "h_own"), T(0), T(1), T(1, "t.y"), T(0, "t.y"), T(1, "t.z")])
+    # C14: stamp wins over colliding user meta even for a handler that sees every frame (no self-feeding)
+    add([R("ha", 0, "h_all_collide"), T(0), T(0, "t.y"), T(1)])
+    # C16: a handler that unregisters itself from inside its closure is stopped, once
+    add([R("hq", 0, "h_selfstop"), T(0), T(0, "t.y"), T(0, "t.z")])
+    # C16: names that are prefixes of one another do not stop each other
+    add([R("h1", 0, "h_echo"), R("h1x", 0, "h_str"), R("h", 0, "h_int"), T(0), U("h1x", 0), T(0, "t.y"), U("h", 0), T(0, "t.z"),
+         R("h1x", 0, "h_str"), T(0), R("h", 0, "h_int"), T(0)])
     # C14 mode B: burst while the closure sleeps
     add([R("h1", 0, "h_slow"), T(0, "t.slow"), BURST([T(0, "t.x"), T(0, "t.y"), T(1, "t.x"), T(0, "t.z"), T(0, "t.x"), T(0, "t.y")]),
          T(0, "t.slow"), BURST([T(0, "t.x"), U("h1", 0), T(0, "t.y")])])
